@@ -8,6 +8,7 @@ reverse = "--reverse" in sys.argv
 slot = "0"
 if "--slot" in sys.argv:
     slot = sys.argv[sys.argv.index("--slot") + 1]
+    args.remove(slot)
 patch, checks = args[0], args[1:]
 base = "/tmp/mt%s" % slot
 repo, verif = base + "/repo", base + "/verif"
